@@ -27,7 +27,7 @@ from hypothesis import strategies as st
 
 from ..core import MachineSpec, Reject, SubCheck, Violation
 
-RULE = ("histories of up to 25/50 public operations (36 rule kinds: add/pop/delete/replace tensors, rename labels/tags at "
+RULE = ("histories of up to 25/50 public operations (38 rule kinds: add/pop/delete/replace tensors, rename labels/tags at "
         "tensor and network level incl. merges and swaps, modify/transpose/isel/squeeze/fuse/new_ind/new_bond, split, "
         "contract, gate, cut_bond, views/copies/pickle, select/partition, combine with &,|,&=,|=, drop+gc) on a pool of "
         "networks sharing tensors; non-trivial = >=4 mutating steps and (a tensor owned by >=2 networks was touched, or a "
@@ -1010,6 +1010,92 @@ def op_replace_identity(s, a):
     tn.replace_with_identity(tag, inplace=True)
 
 
+def op_remove_all(s, a):
+    """empty a network (the tensors stay alive in the loose pool) - later rules refill it"""
+    (ni,) = a
+    tn = pick_net(s, ni)
+    ts = list(tn.tensor_map.values())
+    for t in ts:
+        touch(s, t)
+    tn.remove_all_tensors()
+    if tn.tensor_map or tn.ind_map or tn.tag_map or tn.outer_inds() or tn.inner_inds():
+        raise Violation("remove-all-left-something")
+    for t in ts:
+        add_loose(s, t)
+
+
+def op_mangle_inner(s, a):
+    ni, how = a
+    tn = pick_net(s, ni)
+    if any(tensor_has_repeat(t) for t in tn.tensor_map.values()):
+        raise Reject("repeated labels")
+    before_outer = set(tn.outer_inds())
+    for ix in tn.inner_inds():
+        for tid in tn.ind_map[ix]:
+            touch(s, tn.tensor_map[tid])
+    tn.mangle_inner_()
+    if set(tn.outer_inds()) != before_outer and id(tn) not in s.rep:
+        raise Violation("mangle-inner-renamed-outer")
+
+
+def op_insert_operator(s, a):
+    ni, li, seed, inplace = a
+    tn = pick_net(s, ni)
+    im, tm, mult = scan(tn)
+    bonds = sorted(ix for ix, c in mult.items() if c == 2 and len(im[ix]) == 2)
+    if not bonds:
+        raise Reject("no bonds")
+    ix = pick(bonds, li)
+    t1, t2 = sorted(im[ix])
+    if len(tn.tensor_map[t1].bonds(tn.tensor_map[t2])) != 1:
+        raise Reject("multibond")
+    d = tn.ind_size(ix)
+    A_ = np.random.default_rng(seed).normal(size=(d, d))
+    touch(s, tn.tensor_map[t1])
+    touch(s, tn.tensor_map[t2])
+    n0 = tn.num_tensors
+    tag1, tag2 = unique_tag(tn, t1), unique_tag(tn, t2)
+    if inplace:
+        tn.insert_operator_(A_, tag1, tag2, tags="OPR")
+        r = tn
+    else:
+        r = tn.insert_operator(A_, tag1, tag2, tags="OPR")
+        s.nets.append(r)
+        if id(tn) in s.rep:
+            s.rep.add(id(r))
+    if r.num_tensors != n0 + 1:
+        raise Violation("insert-operator-count")
+
+
+def op_rank_simplify(s, a):
+    ni, inplace = a
+    tn = pick_net(s, ni)
+    im, tm, mult = scan(tn)
+    if any(c >= 3 for c in mult.values()) or any(tensor_has_repeat(t) for t in tn.tensor_map.values()):
+        raise Reject("hyper/repeat")
+    if any(len(owners_of(s, t)) >= 2 for t in tn.tensor_map.values()) and inplace:
+        s.shared_touch = True
+    outer = set(ix for ix, c in mult.items() if c == 1)
+    s.nmut += 1
+    if inplace:
+        tn.rank_simplify_()
+        r = tn
+    else:
+        r = tn.rank_simplify()
+        s.nets.append(r)
+    if set(r.outer_inds()) != outer:
+        raise Violation("rank-simplify-changed-outer")
+
+
+def op_randomize(s, a):
+    ni, seed = a
+    tn = pick_net(s, ni)
+    if not tn.tensor_map:
+        raise Reject("empty")
+    s.nmut += 1
+    tn.randomize_(seed=seed % 1000)
+
+
 OPS = {
     "new_tensor": (tensor_spec, op_new_tensor),
     "new_tensor_rep": (tensor_spec_rep, op_new_tensor_rep),
@@ -1044,6 +1130,11 @@ OPS = {
     "tensor_copy": (st.tuples(I, B), op_tensor_copy),
     "astype_conj": (st.tuples(I, st.integers(0, 3)), op_astype_conj),
     "replace_identity": (st.tuples(I, I), op_replace_identity),
+    "remove_all": (st.tuples(I), op_remove_all),
+    "mangle_inner": (st.tuples(I, I), op_mangle_inner),
+    "insert_operator": (st.tuples(I, I, I, B), op_insert_operator),
+    "rank_simplify": (st.tuples(I, B), op_rank_simplify),
+    "randomize": (st.tuples(I, I), op_randomize),
 }
 
 NEEDS_NET = {k for k in OPS if k not in ("new_tensor", "new_tensor_rep", "new_network", "drop_tensor", "tensor_copy")}
@@ -1092,10 +1183,92 @@ def finish(s):
 SPEC = MachineSpec(init=init_strategy, start=start, ops=OPS, invariant=invariant, finish=finish,
                    max_steps=(25, 50), preconditions=PRE)
 
+# ---------------------------------------------------------------------------
+# views of the structured classes: copy(virtual=...) / select / | must really view or really copy
+# ---------------------------------------------------------------------------
+
+STRUCT = ["MPS", "MPO", "PEPS", "PEPO", "PEPS3D", "GenVec"]
+
+
+@st.composite
+def s_struct_views(draw, tier):
+    return {"cls": draw(st.sampled_from(STRUCT)), "seed": draw(st.integers(0, 10**6)),
+            "how": draw(st.sampled_from(["copy", "copy_virtual", "copy_deep", "ctor", "ctor_virtual", "select_all", "or_empty"])),
+            "edit": draw(st.sampled_from(["retag", "reindex", "add_tag", "data"])), "ti": draw(I)}
+
+
+def build_struct(cls, seed):
+    qtn = Q()
+    if cls == "MPS":
+        return qtn.MPS_rand_state(4, 2, seed=seed)
+    if cls == "MPO":
+        return qtn.MPO_rand(4, 2, seed=seed)
+    if cls == "PEPS":
+        return qtn.PEPS.rand(2, 2, 2, seed=seed)
+    if cls == "PEPO":
+        return qtn.PEPO.rand(2, 2, 2, seed=seed)
+    if cls == "PEPS3D":
+        return qtn.PEPS3D.rand(2, 2, 2, 2, seed=seed)
+    return qtn.TN_from_edges_rand([(0, 1), (1, 2), (2, 0)], 2, phys_dim=2, seed=seed)
+
+
+def run_struct_views(case):
+    qtn = Q()
+    x = build_struct(case["cls"], case["seed"] % 1000)
+    how = case["how"]
+    if how == "copy":
+        y, virtual = x.copy(), False
+    elif how == "copy_virtual":
+        y, virtual = x.copy(virtual=True), True
+    elif how == "copy_deep":
+        y, virtual = x.copy(deep=True), False
+    elif how == "ctor":
+        y, virtual = x.__class__(x), False
+    elif how == "ctor_virtual":
+        y, virtual = x.__class__(x, virtual=True), True
+    elif how == "select_all":
+        y, virtual = x.select(sorted(x.tag_map)[0], which="any", virtual=True), True
+    else:
+        y, virtual = x | qtn.TensorNetwork([]), True
+    shared = [tid for tid in y.tensor_map if tid in x.tensor_map and y.tensor_map[tid] is x.tensor_map[tid]]
+    if virtual and len(shared) != y.num_tensors:
+        raise Violation("view-is-a-copy", cls=case["cls"], how=how)
+    if not virtual and shared:
+        raise Violation("copy-is-a-view", cls=case["cls"], how=how)
+    # edit one tensor through x: a view must see it, a copy must not; both networks' maps must match a fresh scan
+    tid = sorted(y.tensor_map)[case["ti"] % y.num_tensors]
+    t = x.tensor_map[tid]
+    if case["edit"] == "retag":
+        t.retag_({sorted(t.tags)[0]: "EDIT"})
+    elif case["edit"] == "reindex":
+        t.reindex_({t.inds[0]: "edited_ix"})
+    elif case["edit"] == "add_tag":
+        t.add_tag("EDIT")
+    else:
+        t.modify(data=t.data * 2.0)
+    for name, tn in (("x", x), ("y", y)):
+        im, tm, mult = scan(tn)
+        if {k: set(v) for k, v in tn.ind_map.items()} != im:
+            raise Violation("ind_map", net=name, cls=case["cls"], how=how)
+        if {k: set(v) for k, v in tn.tag_map.items()} != tm:
+            raise Violation("tag_map", net=name, cls=case["cls"], how=how)
+        if set(tn.outer_inds()) != {ix for ix, c in mult.items() if c == 1}:
+            raise Violation("inner-outer", net=name, cls=case["cls"], how=how, repeated_history=False)
+    ty = y.tensor_map[tid]
+    sees = ("EDIT" in ty.tags) if case["edit"] in ("retag", "add_tag") else ("edited_ix" in ty.inds) if case["edit"] == "reindex" \
+        else bool(np.allclose(ty.data, t.data))
+    if sees != virtual:
+        raise Violation("view-semantics", cls=case["cls"], how=how, edit=case["edit"], sees=sees)
+    return {"nt": True, "cls": [case["cls"], how, case["edit"]]}
+
+
 SUBCHECKS = [
     SubCheck("history", machine=SPEC, examples=(60, 1500), shards=(8, 16),
              rule="rule-based machine, fresh-scan oracle after every step; nt: >=4 mutating steps and (shared tensor touched or gc of a viewing network or repeated label)",
              soft_budget=(80.0, 900.0),
              fuzz={"instrument": ["quimb.tensor.tensor_core:Tensor", "quimb.tensor.tensor_core:TensorNetwork", "quimb.utils:oset"],
                    "shards": 8, "runs": 20000, "max_seconds": 600}),
+    SubCheck("struct_views", run_struct_views, s_struct_views, examples=(250, 3000), shards=(1, 2),
+             rule="MPS/MPO/PEPS/PEPO/PEPS3D/graph vectors x 7 ways of viewing or copying x an edit made through the original: a view "
+                  "shares tensor objects and sees the edit, a copy does neither; both networks' maps equal a fresh scan; all nt"),
 ]
